@@ -16,6 +16,7 @@ inductive WOp where
   | opCancelReq (id : Nat)
   | opAddCopy (f n : Nat) (has : Has) (wants : Wants)   -- import-like registration of a copy
   | fault (n f : Nat) (c : Option OnDisk)               -- external damage to storage
+  | measure (n : Nat) (avail : Option Int)              -- free space of node n measured and recorded (update_free_space, end of a pull task)
   deriving DecidableEq, Repr
 
 namespace World
@@ -34,6 +35,7 @@ def wstep (w : World) : WOp → World × List Eff
     | some _ => (w, [])
     | none => ({ w with copies := w.copies ++ [⟨w.nextId, f, n, h, wn, true⟩], nextId := w.nextId + 1 }, [])
   | .fault n f c => (w.setDisk n f c, [])
+  | .measure n a => ({ w with nodes := w.nodes.map (fun x => if x.id == n then { x with availKiB := a } else x) }, [])
 
 /-- the trace of a history: (state before the step, the step, its effects) -/
 def trace (w : World) : List WOp → List (World × WOp × List Eff)
